@@ -186,6 +186,13 @@ class Real:
             return self._call(lambda: o[arg[0]].children.pop(int(arg[1])))
         if a == "Replace":
             return self._call(lambda: setattr(o[arg[0]], "children", [o[x] for x in arg[1:]]))
+        if a == "SetItem":
+            return self._call(lambda: o[arg[0]].children.__setitem__(int(arg[1]), o[arg[2]]))
+        if a == "Reverse":
+            def rev():
+                lst = o[arg[0]].children
+                lst[::-1] = list(lst)
+            return self._call(rev)
         if a == "SetParent":
             return self._call(lambda: setattr(o[arg[0]], "parent", None if arg[1] == "none" else o[arg[1]]))
         if a == "SetVal":
@@ -478,28 +485,156 @@ class Driver11:
         pass
 
 
-# ====================================================================== many-to-many pair (OrmManyToMany.tla), in memory
-class DriverMM:
-    """replays OrmManyToMany walks on real (transient) L / R objects; both lists read from __dict__ (order included) after every step"""
+# ====================================================================== many-to-many pair (OrmManyToMany.tla) with flush and reload
+_MMM = {}
 
-    def __init__(self, wid, workdir, ls, rs):
-        from checks import ormgraph_shapes
-        m = ormgraph_shapes.models()
-        self.L, self.R = m["L"], m["R"]
+
+def mappingmm(bidir):
+    """L.rs (<-> R.ls when bidir) through the secondary table mlr; lists ordered by key on load"""
+    if bidir in _MMM:
+        return _MMM[bidir]
+    import sqlalchemy as sa
+    from sqlalchemy import orm
+
+    class Base(orm.DeclarativeBase):
+        pass
+
+    mlr = sa.Table("mlr", Base.metadata,
+                   sa.Column("l_id", sa.Integer, sa.ForeignKey("ml.id"), primary_key=True),
+                   sa.Column("r_id", sa.Integer, sa.ForeignKey("mr.id"), primary_key=True))
+
+    if bidir:
+        class L(Base):
+            __tablename__ = "ml"
+            id = sa.Column(sa.Integer, primary_key=True, autoincrement=False)
+            rs = orm.relationship("R", secondary=mlr, back_populates="ls", order_by="R.id")
+
+        class R(Base):
+            __tablename__ = "mr"
+            id = sa.Column(sa.Integer, primary_key=True, autoincrement=False)
+            ls = orm.relationship("L", secondary=mlr, back_populates="rs", order_by="L.id")
+    else:
+        class L(Base):
+            __tablename__ = "ml"
+            id = sa.Column(sa.Integer, primary_key=True, autoincrement=False)
+            rs = orm.relationship("R", secondary=mlr, order_by="R.id")
+
+        class R(Base):
+            __tablename__ = "mr"
+            id = sa.Column(sa.Integer, primary_key=True, autoincrement=False)
+
+    orm.configure_mappers()
+    _MMM[bidir] = (Base, L, R, mlr)
+    return _MMM[bidir]
+
+
+class DriverMM:
+    """replays OrmManyToMany walks on the real ORM (SQLite file, autocommit=False, foreign_keys=ON): after every step call outcome, lifecycle
+    state, both lists read from __dict__ (order included), session.deleted, collection History; after Flush/CommitReload entity rows and
+    association rows through the session's connection and the emitted DML set; after CommitReload the committed rows (second connection)"""
+
+    def __init__(self, wid, workdir, ls, rs, bidir):
+        import sqlalchemy as sa
+        from sqlalchemy import event, orm
+        from sqlalchemy.pool import NullPool
+        self.sa, self.orm = sa, orm
+        self.Base, self.L, self.R, self.mlr = mappingmm(bidir)
+        self.bidir = bidir
         self.ls, self.rs = list(ls), list(rs)
+        os.makedirs(workdir, exist_ok=True)
+        self.path = os.path.join(workdir, "mm%d.sqlite" % wid)
+        if os.path.exists(self.path):
+            os.unlink(self.path)
+        self.engine = sa.create_engine("sqlite:///" + self.path, connect_args={"autocommit": False}, poolclass=NullPool)
+
+        @event.listens_for(self.engine, "connect")
+        def _fk(dbapi_conn, rec):
+            ac = dbapi_conn.autocommit
+            dbapi_conn.autocommit = True
+            cur = dbapi_conn.cursor()
+            cur.execute("PRAGMA foreign_keys=ON")
+            cur.close()
+            dbapi_conn.autocommit = ac
+
+        self.stmts = []
+
+        @event.listens_for(self.engine, "before_cursor_execute")
+        def _bce(conn, cursor, statement, parameters, context, executemany):
+            m = _DML.match(statement)
+            if not m or context is None or context.compiled is None:
+                return
+            names = list(context.compiled.positiontup or [])
+            op = m.group(1).split()[0].upper()
+            table = m.group(2).lower()
+            for prm in (parameters if executemany else [parameters]):
+                dd = dict(prm) if isinstance(prm, dict) else dict(zip(names, prm))
+                g = lambda col: dd.get(table + "_" + col, dd.get(col))
+                if table == "mlr":
+                    self.stmts.append([op, "lr", "l%s" % g("l_id"), "r%s" % g("r_id")])
+                else:
+                    self.stmts.append([op, "x", ("l%s" if table == "ml" else "r%s") % g("id"), "-"])
+
+        self.Base.metadata.create_all(self.engine)
+        with self.engine.connect() as c:
+            self.calibrated = c.exec_driver_sql("PRAGMA foreign_keys").scalar() == 1
+        self.session = None
         self.obj = {}
 
+    def _fresh(self):
+        sa = self.sa
+        self.session = s = self.orm.Session(self.engine, autoflush=False)
+        got = {"l%d" % o.id: o for o in s.scalars(sa.select(self.L).order_by(self.L.id))}
+        got.update({"r%d" % o.id: o for o in s.scalars(sa.select(self.R).order_by(self.R.id))})
+        for n, o in got.items():
+            if n[0] == "l":
+                o.rs
+            elif self.bidir:
+                o.ls
+        for n in self.ls:
+            self.obj[n] = got.get(n) or self.L(id=int(n[1:]), rs=[])
+        for n in self.rs:
+            self.obj[n] = got.get(n) or (self.R(id=int(n[1:]), ls=[]) if self.bidir else self.R(id=int(n[1:])))
+
     def reset(self, state):
-        self.obj = {n: self.L(id=int(n[1:]), rs=[]) for n in self.ls}
-        self.obj.update({n: self.R(id=int(n[1:]), ls=[]) for n in self.rs})
+        if self.session is not None:
+            try:
+                self.session.close()
+            except Exception:
+                pass
+        raw = sqlite3.connect(self.path, isolation_level=None)
+        raw.execute("delete from mlr")
+        raw.execute("delete from ml")
+        raw.execute("delete from mr")
+        for x in state["rows"]:
+            raw.execute("insert into %s (id) values (?)" % ("ml" if x[0] == "l" else "mr"), (int(x[1:]),))
+        for l, r in state["assoc"]:
+            raw.execute("insert into mlr (l_id, r_id) values (?, ?)", (int(l[1:]), int(r[1:])))
+        raw.close()
+        self.obj = {}
+        self._fresh()
 
     def _coll(self, n):
         return getattr(self.obj[n], "rs" if n[0] == "l" else "ls")
 
+    def _commit_reload(self):
+        self.session.commit()
+        self.session.close()
+        self._fresh()
+
+    def _rows(self, conn_exec):
+        rows = sorted(["l%d" % r[0] for r in conn_exec("select id from ml")] + ["r%d" % r[0] for r in conn_exec("select id from mr")])
+        assoc = sorted(["l%d" % r[0], "r%d" % r[1]] for r in conn_exec("select l_id, r_id from mlr"))
+        return {"rows": rows, "assoc": assoc}
+
     def step(self, frm, act, to):
-        a, arg = act["a"], act["arg"]
+        if not self.calibrated:
+            return "calibration: PRAGMA foreign_keys is not ON"
+        a, arg = act["a"], [str(x) for x in act["arg"]]
         o = self.obj
-        try:
+        sa = self.sa
+        self.stmts = []
+
+        def run():
             if a == "Append":
                 self._coll(arg[0]).append(o[arg[1]])
             elif a == "Insert":
@@ -510,21 +645,75 @@ class DriverMM:
                 self._coll(arg[0]).pop()
             elif a == "Replace":
                 setattr(o[arg[0]], "rs" if arg[0][0] == "l" else "ls", [o[x] for x in arg[1:]])
+            elif a == "SetItem":
+                self._coll(arg[0])[int(arg[1])] = o[arg[2]]
+            elif a == "Reverse":
+                lst = self._coll(arg[0])
+                lst[::-1] = list(lst)
+            elif a == "Delete":
+                self.session.delete(o[arg[0]])
+            elif a == "Flush":
+                self.session.flush()
+            elif a == "CommitReload":
+                self._commit_reload()
             else:
-                return "unknown action %r" % a
-            ret = "ok"
-        except Exception as e:
-            ret = type(e).__name__
+                raise ValueError("unknown action %r" % a)
+        with warnings.catch_warnings(record=True) as w:
+            warnings.simplefilter("always")
+            try:
+                run()
+                ret = "ok"
+            except Exception as e:
+                ret = type(e).__name__
+        if any(issubclass(x.category, sa.exc.SAWarning) for x in w):
+            ret += "+warn"
         if ret != act["ret"]:
-            return "call outcome %r, spec %r" % (ret, act["ret"])
-        got = {}
+            return "call outcome %r, spec %r (%s)" % (ret, act["ret"], "; ".join(str(x.message)[:80] for x in w))
+        if to["dead"]:
+            return None
+        o = self.obj
+        got = {"life": {}, "coll": {}, "hist": {}}
+        owners = self.ls + (self.rs if self.bidir else [])
+        deleted = set(id(x) for x in self.session.deleted)
+        got["marked"] = sorted(n for n, ob in o.items() if id(ob) in deleted)
         for n, ob in o.items():
-            lst = ob.__dict__.get("rs" if n[0] == "l" else "ls") or []
-            got[n] = [("r%d" if n[0] == "l" else "l%d") % x.__dict__["id"] for x in lst]
-        exp = {n: list(v) for n, v in to["coll"].items()}
-        if got != exp:
-            return "both lists: real %r, spec %r" % (got, exp)
-        return None
+            i = sa.inspect(ob)
+            got["life"][n] = "persistent" if i.persistent else "deleted" if i.deleted else "transient" if i.transient else "?"
+            if n in owners:
+                key = "rs" if n[0] == "l" else "ls"
+                lst = ob.__dict__.get(key) or []
+                got["coll"][n] = [("r%d" if n[0] == "l" else "l%d") % x.__dict__["id"] for x in lst]
+                h = getattr(i.attrs, key).history
+                got["hist"][n] = [sorted(set(("r%d" if n[0] == "l" else "l%d") % x.__dict__["id"] for x in (part or ()))) for part in h]
+        exp = {"life": to["life"], "coll": {n: list(to["coll"][n]) for n in owners}, "marked": sorted(to["marked"]),
+               "hist": {n: [sorted(x) for x in act["obs"]["hist"][n]] for n in owners}}
+        diffs = []
+        flushed = a in ("Flush", "CommitReload")
+        if flushed:
+            conn = self.session.connection()
+            got["db"] = self._rows(lambda q: conn.execute(sa.text(q)))
+            exp["db"] = {"rows": sorted(to["rows"]), "assoc": sorted(list(p) for p in to["assoc"])}
+            gd = sorted(self.stmts)
+            ed = sorted(list(x) for x in act["dml"])
+            if gd != ed:
+                diffs.append("DML emitted %r, spec %r" % (gd, ed))
+        for k in exp:
+            if got.get(k) != exp[k]:
+                diffs.append("%s: real %r, spec %r" % (k, got.get(k), exp[k]))
+        if a == "CommitReload":
+            raw = sqlite3.connect(self.path, isolation_level=None)
+            try:
+                cr = self._rows(lambda q: raw.execute(q))
+            finally:
+                raw.close()
+            if cr != exp["db"]:
+                diffs.append("committed rows (second connection) %r, spec %r" % (cr, exp["db"]))
+        return "; ".join(diffs[:5]) if diffs else None
 
     def close(self):
-        pass
+        try:
+            if self.session is not None:
+                self.session.close()
+            self.engine.dispose()
+        except Exception:
+            pass
